@@ -176,6 +176,11 @@ theorem refine_abiShift (p : ArtI F) (l : V3 F) : (p.shift l).toMat = phiMat l *
 /-- the explicit symmetrisation in `realizeArticulatedBodyInertiasInward` does not change a symmetric block -/
 theorem refine_symmetrize (m : M33 F) (h : m.toMatᵀ = m.toMat) (h2 : (2 : F) ≠ 0) :
     (Sym3.symmetrize m).toMat = m.toMat := Sym3.symmetrize_toMat m h h2
+/-- `H * u` (fold over the list of hinge columns) and `~H * F` (one spatial dot product per column) of the executable
+model are the dense products with the `6 × d` matrix `hMat h` -/
+theorem refine_hinge (h : List (SV F)) (u : List F) (f : SV F) (j : Fin h.length) :
+    (hMul h u).toVec = hMat h *ᵥ lvec h.length u ∧ (hTMul h f).getD j 0 = ((hMat h)ᵀ *ᵥ f.toVec) j :=
+  ⟨hMul_toVec h u, hTMul_toVec h f j⟩
 /-- spatial dot product (`~H F`, kinetic energy) is the dense dot product -/
 theorem refine_dot (a b : SV F) : a.dot b = a.toVec ⬝ᵥ b.toVec := SV.dot_toVec a b
 end refine
